@@ -4,6 +4,10 @@ package main
 var plans = map[string][]planItem{
 	"C01": {{Scenario: "c01", Quick: 4000, Thorough: 400000}},
 	"C09": {{Scenario: "c01", Quick: 1500, Thorough: 100000}},
+	"C03": {{Scenario: "c03", Quick: 4000, Thorough: 400000}},
+	"C04": {{Scenario: "c04", Quick: 3000, Thorough: 300000}},
+	"C16": {{Scenario: "c16", Quick: 4000, Thorough: 400000}},
+	"C17": {{Scenario: "c17", Quick: 6000, Thorough: 600000}},
 }
 
 type meta struct {
@@ -36,6 +40,30 @@ func comp(extraReal, extraStub []string) map[string]any {
 
 var propMeta = map[string]meta{
 	"C09": {Level: "exploration", Rule: "tbd", Components: comp(nil, nil), Assumptions: commonAssumptions},
+	"C03": {
+		Level:       "exploration",
+		Rule:        "one run = one tunnel under a drawn host policy (mode in roundrobin/unsigned/any/signed, host list with/without the user placeholder and an IPv6 entry, user name incl. empty and user@domain, token host = configured entry or the requested string) requesting a configured entry or one of 16 near-miss kinds (port, prefix, suffix, superstring, embedded/doubled NUL, no terminator, other user's entry, bracketed, surrogate pair, odd-length UTF-16, over-long length field, name containing a port); oracle: independent UTF-16 decode + policy model; every dial of the run must be the authorised request verbatim, a refusal must carry E_PROXY_RAP_ACCESSDENIED and cause zero dials; listeners exist for allowed and forbidden names; non-trivial = the channel request was sent; distinct = journal shape",
+		Components:  comp(nil, nil),
+		Assumptions: append([]string{"for names containing surrogate code units only the authorised-set clause is asserted (the gateway decodes unit by unit)"}, commonAssumptions...),
+	},
+	"C04": {
+		Level:       "exploration",
+		Rule:        "one run = a cookie minted for address A (under the configured key) presented from address B (equal or different; IPv4/IPv6; as TCP peer or as first element of an X-Forwarded-For chain of length 1-5 with varied separators; legacy OUT channel optionally from a third address) under verifyclientip absent/true/false, both transports; oracle: channel created iff verification off or A==B textually, refusal carries an access-denied status and zero dials; non-trivial = channel request sent; distinct = journal shape",
+		Components:  comp(nil, nil),
+		Assumptions: append([]string{"issuance is represented by a harness-minted cookie whose clientIp claim is A; that issued files carry the requesting address is decided by C12", "same IP written differently is a don't-care region and is not generated"}, commonAssumptions...),
+	},
+	"C16": {
+		Level:       "exploration",
+		Rule:        "one run = 1-2 tunnels with C01-style near-valid histories under a drawn policy (all 2^7 redirect switch combinations, idle timeout over the int32 range with boundary bias, smart-card on/off); every packet the gateway sends is decoded by an independent structural MS-TSGU decoder (type answers request, header length == bytes sent, optional fields exactly per fieldsPresent, no trailing bytes), status 0 iff the reference model accepted the step, capability/cookie/host refusals carry their MS-TSGU codes, tunnel-auth response redirection word and idle timeout equal what the configuration means; non-trivial = >=2 server packets decoded; distinct = journal shape",
+		Components:  comp(nil, nil),
+		Assumptions: append([]string{"the close-channel response is accepted in either the MS-TSGU HTTP_CLOSE_PACKET layout or the channel-response layout the gateway uses, as long as it is consistent with its own fieldsPresent mask", "configuration and input dimensions are sampled"}, commonAssumptions...),
+	},
+	"C17": {
+		Level:       "exploration",
+		Rule:        "one run = one handshake (client capability word: boundary values, uniform uint16 or single bits; random version bytes) followed by tunnel-create and tunnel-auth, server smart-card on/off, token auth on; oracle: success iff both capability sets empty or intersecting, response advertises exactly the server set and echoes the version bytes, mismatch answered by E_PROXY_CAPABILITYMISMATCH, the stream ends and the following packets get nothing; non-trivial = every run; distinct = journal shape",
+		Components:  comp(nil, nil),
+		Assumptions: append([]string{"token auth off (server capability set without the cookie bit) needs a non-OpenID mechanism; those configurations are covered by the NTLM-authenticated variant when the auth node is enabled", "input dimension is sampled (uniform draws cover the 65536 values in the thorough tier)"}, commonAssumptions...),
+	},
 	"C01": {
 		Level:       "exploration",
 		Rule:        "one run = 1-3 tunnels (websocket or legacy), each a near-valid MS-TSGU packet history (ideal exchange with <=2 of: skip, repeat, swap, inserted packet of any type, rejected cookie, denied/unreachable host, truncated body, unknown type; 0-2 packets after the end; optional client drop; dial black-hole) under a tape-chosen interleaving; non-trivial = some tunnel sent >=3 packets; distinct = distinct journal shape (sequence of scheduler action kinds and connection roles)",
